@@ -688,32 +688,32 @@ func writeEvidence(prop string, ld *loaded, ws []*Worker, results []*HarnessResu
 		decisions += w.decisions
 	}
 	cov := map[string]interface{}{
-		"evaluations":                   queries + domDec,
-		"distinct_nontrivial":           nontrivial,
-		"rule":                          "evaluations = decisions discharged about symbolic conditions (branch feasibility, run-time panic obligations, assertions): by the SMT solver (decided_by_smt_solver) or, for conditions over a single byte-sized input, by exhaustive evaluation over its 256-value domain (decided_by_byte_domain_pass; a sample is re-decided by the solver); transitions = decisions taken along all paths (incl. forks over harness choices); distinct_nontrivial = completed paths (each a distinct decision sequence) that took at least one solver-decided branch on a symbolic input; every path is one equivalence class of inputs, decided for all its members at once",
-		"states":                        sumPaths(paths),
-		"transitions":                   decisions + 1,
-		"decided_by_smt_solver":         queries,
-		"decided_by_byte_domain_pass":   domDec,
+		"evaluations":                         queries + domDec,
+		"distinct_nontrivial":                 nontrivial,
+		"rule":                                "evaluations = decisions discharged about symbolic conditions (branch feasibility, run-time panic obligations, assertions): by the SMT solver (decided_by_smt_solver) or, for conditions over a single byte-sized input, by exhaustive evaluation over its 256-value domain (decided_by_byte_domain_pass; a sample is re-decided by the solver); transitions = decisions taken along all paths (incl. forks over harness choices); distinct_nontrivial = completed paths (each a distinct decision sequence) that took at least one solver-decided branch on a symbolic input; every path is one equivalence class of inputs, decided for all its members at once",
+		"states":                              sumPaths(paths),
+		"transitions":                         decisions + 1,
+		"decided_by_smt_solver":               queries,
+		"decided_by_byte_domain_pass":         domDec,
 		"domain_verdicts_rechecked_by_solver": crossChecked,
-		"domain_solver_disagreements":   crossMismatch,
-		"traces_validated_against_impl": replayed,
-		"samples":                       samples,
-		"exhaustive":                    !incomplete && len(vacuous) == 0,
-		"paths":                         paths,
-		"queries":                       map[string]int{"sat": stats.Sat, "unsat": stats.Unsat, "unknown": stats.Unknown, "solver_errors": stats.Errors, "fallback_decided": stats.Fallbacks},
-		"solver_s":                      stats.Time.Seconds(),
-		"solver":                        "z3 5.1.0 (z3-new -in, push/pop), unknowns retried on z3 4.8.12 and cvc5 1.0",
-		"functions_encoded":             nfuncs,
-		"functions_by_package":          funcs,
-		"goflow_functions":              goflowFuncs,
-		"intrinsics_hit":                intrList,
-		"harnesses":                     hres,
-		"known_findings":                knownLines,
-		"vacuous":                       vacuous,
-		"map_ranges":                    mapRanges,
-		"load_s":                        ld.loadS,
-		"ssa_build_s":                   ld.buildS,
+		"domain_solver_disagreements":         crossMismatch,
+		"traces_validated_against_impl":       replayed,
+		"samples":                             samples,
+		"exhaustive":                          !incomplete && len(vacuous) == 0,
+		"paths":                               paths,
+		"queries":                             map[string]int{"sat": stats.Sat, "unsat": stats.Unsat, "unknown": stats.Unknown, "solver_errors": stats.Errors, "fallback_decided": stats.Fallbacks},
+		"solver_s":                            stats.Time.Seconds(),
+		"solver":                              "z3 5.1.0 (z3-new -in, push/pop), unknowns retried on z3 4.8.12 and cvc5 1.0",
+		"functions_encoded":                   nfuncs,
+		"functions_by_package":                funcs,
+		"goflow_functions":                    goflowFuncs,
+		"intrinsics_hit":                      intrList,
+		"harnesses":                           hres,
+		"known_findings":                      knownLines,
+		"vacuous":                             vacuous,
+		"map_ranges":                          mapRanges,
+		"load_s":                              ld.loadS,
+		"ssa_build_s":                         ld.buildS,
 	}
 	seed, _ := strconv.Atoi(os.Getenv("VERIF_SEED"))
 	ev := map[string]interface{}{
